@@ -126,14 +126,48 @@ func checkC13(c *Check) {
 				}
 			}
 		}
+		// outcome of a stage result: `result.Error() != nil` taken / not taken on this path
+		if a := condAtom(ifi.Cond, idx == 0); a.Op == "eq" || a.Op == "neq" {
+			if ev, _ := callOf(a.X); ev != nil && calleeMethod(ev) == "Error" && strings.Contains(calleeFull(ev), "runner.Result") && Sym(a.Y) == "nil" {
+				if a.Op == "neq" {
+					st.mem["failed:"+Sym(callRecv(ev))] = "true"
+				} else {
+					st.mem["failed:"+Sym(callRecv(ev))] = "false"
+				}
+			}
+		}
 		if cv, _ := callOf(ifi.Cond); cv != nil && calleeMethod(cv) == "MatchString" && idx == 0 {
 			st.flag["qnotfound"] = true
 		}
 	}
 	ai.onInstr = func(st *aiState, in ssa.Instruction) {
-		if ta, ok := in.(*ssa.TypeAssert); ok && strings.HasSuffix(ta.AssertedType.String(), "cluster/types.Reservation") {
+		if ta, ok := in.(*ssa.TypeAssert); ok && !ta.CommaOk && strings.HasSuffix(ta.AssertedType.String(), "cluster/types.Reservation") {
+			// the value of a stage result that failed on this path is no reservation
+			if vv, _ := callOf(ta.X); vv != nil && calleeMethod(vv) == "Value" && st.mem["failed:"+Sym(callRecv(vv))] == "true" {
+				return
+			}
 			st.flag["reserved"] = true
 		}
+	}
+	ai.onAssert = func(st *aiState, ta *ssa.TypeAssert, ok bool) bool {
+		if !strings.HasSuffix(ta.AssertedType.String(), "cluster/types.Reservation") {
+			return true
+		}
+		failed, succeeded := false, false
+		if vv, _ := callOf(ta.X); vv != nil && calleeMethod(vv) == "Value" {
+			failed = st.mem["failed:"+Sym(callRecv(vv))] == "true"
+			succeeded = st.mem["failed:"+Sym(callRecv(vv))] == "false"
+		}
+		if ok && failed {
+			return false // the value of a failed stage result is nil
+		}
+		if !ok && succeeded {
+			return false // a stage result without error carries the stage's value (what the plain assertion form assumes too)
+		}
+		if ok {
+			st.flag["reserved"] = true
+		}
+		return true
 	}
 	ai.onRecv = func(st *aiState, tok string, in ssa.Instruction, bare bool) {
 		if bare && (tok == "reserve" || tok == "bid") {
@@ -464,6 +498,17 @@ func capturedStores(fv *ssa.FreeVar) []ssa.Value {
 		return out
 	case *ssa.FreeVar:
 		return capturedStores(b)
+	}
+	return nil
+}
+
+// callRecv: the receiver of a method call (interface or static).
+func callRecv(c *ssa.Call) ssa.Value {
+	if c.Call.IsInvoke() {
+		return c.Call.Value
+	}
+	if len(c.Call.Args) > 0 {
+		return c.Call.Args[0]
 	}
 	return nil
 }
